@@ -707,6 +707,8 @@ def check(ctx):
     # calibration alone over the whole parameter box (model vs reference rule vs implementation's gammavariate scale)
     calib_sweep(ctx)
     vector_live(ctx)
+    # cross-instance state (class-level memos, module caches): Vector among other Vectors vs Vector alone
+    c03.run_cross_instance(ctx, kinds=["vec"], prop="C17")
     rs = ctx.fork("stats")
     stat_vector(ctx, rs, min(1000000, ctx.budget(20000, 1000000)))
     stat_fit(ctx, rs, min(40000, ctx.budget(1500, 20000)))
@@ -841,6 +843,8 @@ def vector_live(ctx):
 def replay(ctx, data):
     d = data["data"]
     chk = d.get("check")
+    if chk == "cross-instance":
+        return c03.cross_instance_case(d["cc"]) is not None
     if chk == "vector-live":
         return vector_live_case(d["live"]) is not None
     if chk == "calib":
@@ -858,6 +862,7 @@ def check_stats_only(ctx):
     ctx.fork("cfgs")
     ctx.fork("calib")
     ctx.fork("vector-live")
+    ctx.fork("cross-instance")
     rs = ctx.fork("stats")
     stat_vector(ctx, rs, min(1000000, ctx.budget(20000, 1000000)))
     stat_fit(ctx, rs, min(40000, ctx.budget(1500, 20000)))
